@@ -652,7 +652,12 @@ func replay() {
 	}
 	var s *symbol
 	var p string
-	if rc.Kind == "qr" && rc.Twin {
+	if rc.Kind == "qr" && len(rc.Pad) == 2 {
+		s, p = buildQRLatin1(rc.V, rc.Level, rc.Mask, padText(rc.V, rc.Level, rc.Pad[0], rc.Pad[1]), false, true)
+		if s != nil {
+			s.pad = rc.Pad
+		}
+	} else if rc.Kind == "qr" && rc.Twin {
 		s, p = buildQRText(rc.V, rc.Level, rc.Mask, twinText(rc.V, rc.Level), true)
 	} else if rc.Kind == "qr" {
 		s, p = buildQR(rc.V, rc.Level, rc.Mask)
@@ -765,6 +770,61 @@ func runTwinBlocks() {
 						}
 						try(l, s, f, "qr/twin-blocks", "C05/qr/%stwin-blocks", "exact", int64(b*8+variant*2+(nb-b+1)/2))
 					}
+				}
+			}
+		})
+	flush(map[string]int{})
+}
+
+// runPadMimic: message data that LOOKS like padding. A whole data block (not the first) spells the
+// pad codeword sequence EC 11 EC 11 ... although it is text ("ì" and a control character in
+// ISO-8859-1), and text follows in the later blocks. One codeword, and t codewords, of every LATER
+// block are damaged: a decoder that takes the pad-like block for the end of the message and stops
+// correcting would hand back the damage.
+func runPadMimic() {
+	type job struct{ v, l, b, phase int }
+	var jobs []job
+	for v := 3; v <= 40; v++ {
+		for l := 0; l < 4; l++ {
+			_, nb := qr.ECInfo(v, qr.Level(l))
+			if nb < 3 || (chk.Quick() && v > 14 && (v+l)%5 != 0) {
+				continue
+			}
+			for _, b := range []int{1, nb - 2} {
+				for phase := 0; phase < 2; phase++ {
+					if b >= 1 && b < nb-1 {
+						jobs = append(jobs, job{v, l, b, phase})
+					}
+				}
+			}
+		}
+	}
+	chk.Range(fmt.Sprintf("pad-mimicking data: %d QR (version, level, block, phase) cases with >= 3 blocks whose block b holds text that spells the pad sequence EC 11 ... (or 11 EC ...); one codeword and t codewords damaged in every later block: exact text", len(jobs)), len(jobs),
+		func(i int) string { return fmt.Sprint(jobs[i]) },
+		func(l *mc.Local, i int) {
+			j := jobs[i]
+			s, p := buildQRLatin1(j.v, j.l, (j.v+j.b)%8, padText(j.v, j.l, j.b, j.phase), false, true)
+			if p != "" {
+				l.Count("pad-mimic symbols the library does not build as the reference does (not judged here)", 1)
+				return
+			}
+			s.pad = []int{j.b, j.phase}
+			s.ord = 200000 + j.v*16 + j.l*4 + j.b
+			for later := j.b + 1; later < len(s.blocks); later++ {
+				for _, n := range []int{1, s.t()} {
+					f := &fault{}
+					for q := 0; q < n; q++ {
+						idx := (q*3 + 1) % s.dataLen[later]
+						dup := false
+						for _, c := range f.CW {
+							dup = dup || c == s.blocks[later][idx]
+						}
+						if !dup {
+							f.CW = append(f.CW, s.blocks[later][idx])
+							f.XOR = append(f.XOR, 0x55+q)
+						}
+					}
+					try(l, s, f, "qr/pad-mimic", "C05/qr/%spad-mimic", "exact", int64(later*4+n))
 				}
 			}
 		})
